@@ -115,12 +115,22 @@ def check(solver, kind='query', name=None):
 INCR_MS = 4000
 
 
+class EmptyRegion(Exception):
+    """the forced decision prefix of a split exploration is infeasible: this part of the input space is empty"""
+
+
+class DepthLimit(Exception):
+    """raised by a frontier exploration when a run asks for more than the allowed number of decisions"""
+
+
 class Ctx:
     """state of one execution path"""
 
     cur = None
 
-    def __init__(self, prefix=(), timeout_ms=60000, concolic=None):
+    def __init__(self, prefix=(), timeout_ms=60000, concolic=None, check_forced=0):
+        self.max_depth = None  # frontier explorations: stop a run when it needs a decision beyond this depth
+        self.check_forced = check_forced  # number of leading forced decisions whose feasibility is still to be confirmed (split explorations)
         self.prefix = list(prefix)
         self.pos = 0
         self.pc = []  # branch literals taken on this path
@@ -167,7 +177,15 @@ class Ctx:
             return False
         if self.pos < len(self.prefix):
             v = self.prefix[self.pos]
+            if self.pos < self.check_forced:
+                r = self.feasible(t if v else z3.Not(t))
+                if r == 'unsat':
+                    raise EmptyRegion()
+                if r != 'sat':
+                    raise Inconclusive(f'feasibility of a forced decision unknown for {t}')
         else:
+            if self.max_depth is not None and self.pos >= self.max_depth:
+                raise DepthLimit()
             ft = self.feasible(t)
             ff = self.feasible(z3.Not(t))
             if ft == 'unknown' or ff == 'unknown':
@@ -538,10 +556,12 @@ def explore(fn, max_paths=200000, timeout_ms=60000, prefix=()):
     paths = []
     while work:
         pre = work.pop()
-        c = Ctx(pre, timeout_ms=timeout_ms)
+        c = Ctx(pre, timeout_ms=timeout_ms, check_forced=(len(prefix) if not paths else 0))
         Ctx.cur = c
         try:
             res = fn(c)
+        except EmptyRegion:
+            return []
         finally:
             Ctx.cur = None
         paths.append(Path(list(c.pc), res, list(c.prefix), list(c.assume)))
@@ -550,6 +570,28 @@ def explore(fn, max_paths=200000, timeout_ms=60000, prefix=()):
         if len(paths) > max_paths:
             raise Inconclusive(f'more than {max_paths} paths')
     return paths
+
+
+def frontier(fn, depth, timeout_ms=60000):
+    """all feasible decision prefixes of length `depth` (and the complete decision lists of runs that need fewer decisions): the regions of a split
+    exploration.  Every input follows exactly one of them."""
+    work = [[]]
+    out = []
+    while work:
+        pre = work.pop()
+        c = Ctx(pre, timeout_ms=timeout_ms)
+        c.max_depth = depth
+        Ctx.cur = c
+        try:
+            fn(c)
+        except DepthLimit:
+            pass
+        finally:
+            Ctx.cur = None
+        out.append(tuple(c.prefix))
+        for i in c.alts:
+            work.append(c.prefix[:i] + [False])
+    return out
 
 
 def coverage_certificate(paths, precondition=(), name='coverage'):
